@@ -39,6 +39,11 @@ DEFS = """fun helper(x: Int): Int { x + 1 }
 fun helper2(a: Int, b: Int): Int { a + b }
 fun takes_str(s: String): Int { s.len() }
 fun no_args(): Int { 41 }
+fun bad_param(x: NoSuchType): Int { 1 }
+fun bad_param2(a: Int, b: NoSuchType): Int { a }
+fun bad_ret(): NoSuchType { 1 }
+method bad_meth(this: Int, o: NoSuchType): Int { 1 }
+method bad_meth_ret(this: Int): NoSuchType { 1 }
 struct Point { x: Int, label: String }
 enum Shape { Dot, Circle(Int) }
 fun in_fun(p: Int): Int {
@@ -120,12 +125,18 @@ def catalogue():
         ("assign unknown", "nope_var = 92", True), ("nested", "helper(helper(93) / 0)", True),
         ("tuple elem", '(94, 95 + "s18")', True), ("some payload", "Some(96 / 0)", True),
         ("return hint", "clo_s()", True), ("method receiver error", "(98 / 0).as_float()", True),
+        ("let unknown hint", "let uh: NoSuchType = 101", True), ("param unknown hint", "bad_param(102)", True),
+        ("param unknown hint 2nd", "bad_param2(103, 104)", True), ("return unknown hint", "bad_ret()", True),
+        ("closure unknown param hint", "(fun(q: NoSuchType) { q })(105)", True),
+        ("closure unknown return hint", "(fun(): NoSuchType { 106 })()", True),
+        ("method unknown param hint", "107.bad_meth(108)", True), ("method unknown return hint", "109.bad_meth_ret()", True),
+        ("let unknown hint arg", "let uh2: List<NoSuchType> = [110]", True),
     ]
     return sites
 
 
 CONTEXTS = ["plain", "arg", "arg2", "in-fun", "in-for", "list-elem", "rhs"]
-STATEMENT_SITES = ("let hint", "let hint list", "destructure count", "destructure non-tuple", "while non-bool",
+STATEMENT_SITES = ("let unknown hint", "let unknown hint arg", "let hint", "let hint list", "destructure count", "destructure non-tuple", "while non-bool",
                    "for non-list", "for destructure", "add-assign type", "sub-assign type", "add-assign non-int var",
                    "assign unknown", "assert false", "assert eq", "assert lt", "assert non-bool")
 
